@@ -119,7 +119,9 @@ def cases(shard, tier):
     elif fam == 'structure':
         for how in ('no-origin', 'no-channel', 'no-frame', 'frame-without-channels', 'file-id-mismatch',
                     'no-logical-file', 'second-lf-without-origin', 'same-named-channels-in-frame',
-                    'same-named-channels-in-frame-dict', 'same-channel-twice-in-frame'):
+                    'same-named-channels-in-frame-dict', 'same-channel-twice-in-frame',
+                    # header fields that do not fit their fixed width, assigned after the header item was made
+                    'header-id-74-chars-assigned-later', 'header-sequence-number-11-digits-assigned-later'):
             yield {'family': fam, 'ctx': ctx, 'how': how, 'must': how != 'no-logical-file'}
     elif fam == 'window':
         for src in ('inline', 'dict', 'struct', 'h5'):
@@ -255,6 +257,11 @@ def make_spec(c):
             sp['ops'].append({'op': 'set', 'h': 'O0', 'attr': 'file_id', 'part': 'value', 'value': 'ANOTHER-ID'})
         elif how == 'no-logical-file':
             sp['ops'] = []
+        elif how == 'header-id-74-chars-assigned-later':
+            sp['ops'].append({'op': 'fhid', 'lf': 'L0', 'value': 'H' * 74})
+            sp['ops'].append({'op': 'set', 'h': 'O0', 'attr': 'file_id', 'part': 'value', 'value': 'H' * 74})
+        elif how == 'header-sequence-number-11-digits-assigned-later':
+            sp['ops'].append({'op': 'fhid', 'lf': 'L0', 'attr': 'sequence_number', 'value': 12345678901})
         elif how.startswith('same-named-channels-in-frame'):
             inline = not how.endswith('dict')
             x1 = _arr('uint8', [3])
